@@ -1,0 +1,90 @@
+//! Verification hooks, only compiled with the cargo feature `verif`.
+//!
+//! Read-only views of crate-private state of the public tree types, and re-exports of the
+//! crate-private visitor traits, so that an external conformance harness can project a [`ClassFile`]
+//! completely and can implement visitors for fields and record components. Adds no behaviour.
+//!
+//! [`ClassFile`]: crate::tree::class::ClassFile
+use java_string::JavaString;
+use crate::tree::annotation::Annotation;
+use crate::tree::attribute::Attribute;
+use crate::tree::field::FieldSignature;
+use crate::tree::method::code::{Label, LabelRange};
+use crate::tree::module::Module;
+use crate::tree::record::RecordComponent;
+use crate::tree::type_annotation::{TargetInfoField, TypeAnnotation, TypePath, TypePathKind};
+use crate::tree::version::Version;
+
+pub use crate::visitor::attribute::UnknownAttributeVisitor;
+pub use crate::visitor::field::{FieldInterests, FieldVisitor};
+pub use crate::visitor::record::{RecordComponentInterests, RecordComponentVisitor};
+
+pub fn label_id(label: &Label) -> u16 {
+	label.id
+}
+
+pub fn label_range(range: &LabelRange) -> (Label, Label) {
+	(range.start, range.end)
+}
+
+pub fn version(version: &Version) -> (u16, u16) {
+	(version.major, version.minor)
+}
+
+/// The path as `(type_path_kind, type_argument_index)` pairs of JVMS 4.7.20.2.
+pub fn type_path(path: &TypePath) -> Vec<(u8, u8)> {
+	path.path.iter().map(|kind| match kind {
+		TypePathKind::ArrayDeeper => (0, 0),
+		TypePathKind::NestedDeeper => (1, 0),
+		TypePathKind::WildcardBound => (2, 0),
+		TypePathKind::TypeArgument { index } => (3, *index),
+	}).collect()
+}
+
+pub struct RecordComponentParts<'a> {
+	pub signature: &'a Option<FieldSignature>,
+	pub runtime_visible_annotations: &'a Vec<Annotation>,
+	pub runtime_invisible_annotations: &'a Vec<Annotation>,
+	pub runtime_visible_type_annotations: &'a Vec<TypeAnnotation<TargetInfoField>>,
+	pub runtime_invisible_type_annotations: &'a Vec<TypeAnnotation<TargetInfoField>>,
+	pub attributes: &'a Vec<Attribute>,
+}
+
+pub fn record_component_parts(component: &RecordComponent) -> RecordComponentParts<'_> {
+	RecordComponentParts {
+		signature: &component.signature,
+		runtime_visible_annotations: &component.runtime_visible_annotations,
+		runtime_invisible_annotations: &component.runtime_invisible_annotations,
+		runtime_visible_type_annotations: &component.runtime_visible_type_annotations,
+		runtime_invisible_type_annotations: &component.runtime_invisible_type_annotations,
+		attributes: &component.attributes,
+	}
+}
+
+/// A module attribute with flags as the `u16` of the class file and names as strings.
+pub struct ModuleParts {
+	pub name: JavaString,
+	pub flags: u16,
+	pub version: Option<JavaString>,
+	pub requires: Vec<(JavaString, u16, Option<JavaString>)>,
+	pub exports: Vec<(JavaString, u16, Vec<JavaString>)>,
+	pub opens: Vec<(JavaString, u16, Vec<JavaString>)>,
+	pub uses: Vec<JavaString>,
+	pub provides: Vec<(JavaString, Vec<JavaString>)>,
+}
+
+pub fn module_parts(module: &Module) -> ModuleParts {
+	ModuleParts {
+		name: module.name.as_inner().to_owned(),
+		flags: module.flags.into(),
+		version: module.version.clone(),
+		requires: module.requires.iter().map(|x| (x.name.as_inner().to_owned(), x.flags.into(), x.version.clone())).collect(),
+		exports: module.exports.iter().map(|x| (x.name.as_inner().to_owned(), x.flags.into(),
+			x.exports_to.iter().map(|y| y.as_inner().to_owned()).collect())).collect(),
+		opens: module.opens.iter().map(|x| (x.name.as_inner().to_owned(), x.flags.into(),
+			x.opens_to.iter().map(|y| y.as_inner().to_owned()).collect())).collect(),
+		uses: module.uses.iter().map(|x| x.as_inner().to_owned()).collect(),
+		provides: module.provides.iter().map(|x| (x.name.as_inner().to_owned(),
+			x.provides_with.iter().map(|y| y.as_inner().to_owned()).collect())).collect(),
+	}
+}
